@@ -411,6 +411,52 @@ def shard_badkeys(rec):
         rec.violation('badkey:accepted', '2-byte key accepted by an 8-bit map', 'shard_badkeys', {})
     except Exception:
         pass
+    # the other ways keys get into a map: the map_ constructor argument and the public .map attribute. Whatever the route, a key that does
+    # not fit is refused at the latest when the map is serialised - never written under another key, never a malformed cell
+    for width in (1, 3, 8, 64):
+        for key in (1 << width, -1, -5, -(1 << width), (1 << width) + 5):
+            for route in ('map_', '.map'):
+                for prefill in ([], [0, (1 << width) - 1]):
+                    rec.case('badkey-route')
+                    rec.state(('badroute', width, key, route, tuple(prefill)))
+                    rec.nontriv(('badroute', width, key, route, tuple(prefill)))
+                    m = {k: 1 for k in prefill}
+                    m[key] = 2
+                    try:
+                        rec.trans()
+                        if route == 'map_':
+                            hm = HashMap(width, map_=m).with_uint_values(8)
+                        else:
+                            hm = HashMap(width).with_uint_values(8)
+                            hm.map.update(m)
+                        cell = hm.serialize()
+                    except Exception:
+                        rec.outcome('refused')
+                        continue
+                    try:
+                        leaves, _ = RH.parse(_rc(cell), width)
+                        got = {k: v[0] for k, v in leaves.items()}
+                    except (RH.RefDictError, RC.RefCellError) as e:
+                        got = f'a malformed dictionary cell ({e})'
+                    rec.violation('badkey:route-accepted', f'width {width}: key {key} given through {route} was accepted; the serialised cell holds {got}', 'shard_badkeys', {})
+                    rec.outcome('ACCEPTED')
+    rec.covered('badkey:routes')
+    # an address that carries anycast info is longer than the 267-bit addr_std key: refused, not cut to its first 267 bits
+    from pytoniq_core.boc import Address
+    for depth, pfx in ((1, 1), (5, 21), (30, 12345)):
+        rec.case('badkey-anycast')
+        a1, a2 = Address((0, bytes(31) + b'\x01')), Address((0, bytes(31) + b'\x02'))
+        a1.set_anycast(depth, pfx)
+        a2.set_anycast(depth, pfx)
+        hm = HashMap(267).with_uint_values(8)
+        try:
+            rec.trans()
+            hm.set(a1, 1)
+            hm.set(a2, 2)
+        except Exception:
+            rec.outcome('refused')
+            continue
+        rec.violation('badkey:anycast-address', f'two distinct addresses with anycast ({depth}, {pfx}) were accepted as keys of a 267-bit map and occupy {len(hm.map)} key(s)', 'shard_badkeys', {})
     rec.sample({'width': 8, 'bad_keys': [256, 257, -1, -256], 'expect': 'refused, map unchanged'})
 
 
@@ -448,8 +494,54 @@ def shard_unfit(rec):
         rec.violation('roundtrip:width1023', 'width-1023 map with same-bit keys does not round trip', 'shard_unfit', {})
 
 
+def shard_deep(rec):
+    """comb-shaped key sets {0} u {2^i}: the trie is as deep as the keys are wide.  Run under the interpreter's DEFAULT recursion limit
+    (a user's program): serialise with the library, parse a reference-built cell with the library"""
+    for width in (64, 256, 400, 520, 1000):
+        case_deep(rec, width)
+    rec.covered('deep-trie')
+
+
+def case_deep(rec, width):
+    from pytoniq_core.boc import HashMap
+    from .common import to_lib, user_recursion_limit
+    if True:
+        keys = [0] + [1 << i for i in range(width)]
+        want = {k: (k.bit_length() * 7) % 251 for k in keys}
+        rec.case('deep-trie')
+        rec.state(('deep', width))
+        rec.nontriv(('deep', width))
+        args = {'width': width}
+        hm = HashMap(width).with_uint_values(8)
+        for k in keys:
+            hm.set_int_key(k, want[k])
+        rc = RH.build({k: RBITS.uint(v, 8) for k, v in want.items()}, width)
+        cell = None
+        try:
+            rec.trans()
+            with user_recursion_limit():
+                cell = hm.serialize()
+            if cell.hash != rc.hash():
+                rec.violation(f'deep-trie:w{width}:hash', f'width {width}, comb of {len(keys)} keys: serialised cell differs from the canonical trie', 'case_deep', args)
+        except Exception as e:
+            rec.violation(f'deep-trie:w{width}:serialize-raises:{exc_name(e)}', f'width {width}, comb key set {{0}} u {{2^i}} ({len(keys)} keys, trie depth {width}): serialize() raised '
+                          f'{exc_name(e)} under the default recursion limit', 'case_deep', args)
+        lib = to_lib(rc)
+        try:
+            rec.trans()
+            with user_recursion_limit():
+                got = HashMap.parse(lib.begin_parse(), width, None, lambda s: s.load_uint(8))
+            rec.trace()
+            if got != want:
+                rec.violation(f'deep-trie:w{width}:parse-value', f'width {width}, comb of {len(keys)} keys: parsed map differs', 'case_deep', args)
+        except Exception as e:
+            rec.violation(f'deep-trie:w{width}:parse-raises:{exc_name(e)}', f'width {width}, comb key set ({len(keys)} keys, trie depth {width}): HashMap.parse raised {exc_name(e)} '
+                          f'under the default recursion limit', 'case_deep', args)
+
+
 def shards(tier, seed):
     out = [{'fn': 'shard_small', 'args': {'width': w}} for w in (1, 2, 3)]
+    out.append({'fn': 'shard_deep', 'args': {}, 'prio': 2})
     parts = 13
     for p in range(parts):
         out.append({'fn': 'shard_w4', 'args': {'part': p, 'parts': parts, 'full': tier == 'thorough'}, 'prio': 3})
